@@ -5,8 +5,8 @@
                                            46-55     SnowfakeryApplication (starting_id = 0, rep_count = 0,
                                                      default criterion = StoppingCriteria(COUNT_REPS, 1))
                                            65-76     stopping_tablename
-                                           78-92     ensure_progress_was_made
-                                           94-112    check_if_finished
+                                           78-97     ensure_progress_was_made (as repaired by 0afda32, d9d462f)
+                                           99-117    check_if_finished
      snowfakery/data_generator_runtime.py  42-47     StoppingCriteria
                                            49-68     IdManager (last_used_ids, start_ids, __setstate__)
                                            321-325   Interpreter.__init__: unknown stopping table
@@ -34,10 +34,6 @@ Definition new_app (sc : option criteria) : app :=
 Definition stopping_tablename (a : app) : option string :=
   if String.eqb (c_table (a_crit a)) COUNT_REPS then None else Some (c_table (a_crit a)).
 
-(* Python truthiness of that value: None and "" are falsy *)
-Definition truthy (o : option string) : bool :=
-  match o with Some s => negb (String.eqb s "") | None => false end.
-
 (* IdManager restricted to the criterion's table: last_used_ids[table] and start_ids.get(table).
    Fresh: last 0, start_ids = {}.  Restored from a continuation (__setstate__):
    start_ids[t] = last_used_ids[t] + 1 for every stored table.  (A table that is absent from the
@@ -54,29 +50,35 @@ Definition generate_ids (m : idm) (r : Z) : idm := mkIdm (m_last m + r) (m_start
 
 Definition runtime_error : err := Internal "RuntimeError".
 
-(* api.py 78-92 *)
+(* id_manager.start_ids.get(table, 1) *)
+Definition start_of (m : idm) : Z := match m_start m with Some s => s | None => 1 end.
+
+(* api.py 78-97.  At the first boundary of a run (rep_count = 0) the reference id is the id
+   the run started from: start_ids.get(table, 1) - 1. *)
 Definition ensure_progress (a : app) (m : idm) : result app :=
-  if negb (truthy (stopping_tablename a)) then Ok a
-  else if m_last m =? a_starting_id a then Err runtime_error
-  else Ok (mkApp (a_crit a) (m_last m) (a_rep_count a)).
+  match stopping_tablename a with
+  | None => Ok a
+  | Some _ =>
+    let s := if a_rep_count a =? 0 then start_of m - 1 else a_starting_id a in
+    if m_last m =? s then Err runtime_error
+    else Ok (mkApp (a_crit a) (m_last m) (a_rep_count a))
+  end.
 
 (* start + count - 1 with start = id_manager.start_ids.get(target_table, 1) *)
-Definition target_id (a : app) (m : idm) : Z :=
-  (match m_start m with Some s => s | None => 1 end) + c_count (a_crit a) - 1.
+Definition target_id (a : app) (m : idm) : Z := start_of m + c_count (a_crit a) - 1.
 
-(* api.py 94-112 *)
+(* api.py 99-117 *)
 Definition check_finished (a : app) (m : idm) : app * bool :=
   let a' := mkApp (a_crit a) (a_starting_id a) (a_rep_count a + 1) in
   if String.eqb (c_table (a_crit a)) COUNT_REPS
   then (a', c_count (a_crit a) <=? a_rep_count a')
   else (a', target_id a m <=? m_last m).
 
-(* data_generator_runtime.py 321-325 *)
+(* data_generator_runtime.py 321-325: `stop_table_name is not None and ... not in tables` *)
 Definition interp_init (a : app) (tables : list string) : result unit :=
   match stopping_tablename a with
   | Some s =>
-    if negb (String.eqb s "") && negb (existsb (String.eqb s) tables)
-    then Err (DGE "DataGenNameError") else Ok tt
+    if negb (existsb (String.eqb s) tables) then Err (DGE "DataGenNameError") else Ok tt
   | None => Ok tt
   end.
 
@@ -158,15 +160,12 @@ Definition check_case (c : case) : bool :=
 
 (* -------- vocabulary of the theorem statements -------- *)
 
-(* a target table name that selects the row-count criterion and is subject to the progress
-   check: not the repetition marker and not the (falsy) empty string *)
-Definition proper_table (T : string) : Prop := T <> COUNT_REPS /\ T <> ""%string.
+(* a target table name that selects the row-count criterion: anything but the repetition
+   marker (a recipe table literally named "__REPS__" would be read as a repetition target) *)
+Definition proper_table (T : string) : Prop := T <> COUNT_REPS.
 
 (* id of the criterion table when the run starts *)
 Definition base (cont : option Z) : Z := match cont with None => 0 | Some l => l end.
-
-(* a continued run starts from a genuine id state *)
-Definition cont_ok (cont : option Z) : Prop := 0 <= base cont.
 
 Definition shift_outcome (d : Z) (o : outcome) : outcome :=
   match o with Stopped n l => Stopped n (l + d) | _ => o end.
